@@ -256,6 +256,7 @@ def native_build(h, udir, pid, defines, outbin, extra_defs=()):
     for k, v in defines.items():
         cmd.append('-D%s=%s' % (k, v) if v is not None else '-D' + k)
     cmd += list(h.get('native_cflags', []))   # e.g. -fno-sanitize=null: thread-mode code forms &p->f from a not-yet-loaded (null) static temp without accessing it
+    cmd += list(h.get('native_cflags', []))   # opt-in extra gcc flags for the replay build (e.g. -fno-sanitize=null for upcasts of null)
     cmd += list(extra_defs) + [hsrc, os.path.join(udir, 'w.c'), os.path.join(RT, 'native.c'), '-Wl,--unresolved-symbols=ignore-all', '-no-pie', '-o', outbin]
     return sh(cmd, timeout=600)
 
